@@ -77,14 +77,18 @@ func (f *fAdapterTransport) Open() error {
 		}
 	}
 
-	go f.readLoop()
+	// Every open gets its own close signal, so that a token left behind by an
+	// earlier generation can neither block a later close nor be mistaken by a
+	// later read loop for a requested close.
+	f.closeSignal = make(chan struct{}, 1)
+	go f.readLoop(f.closeSignal)
 	f.isOpen = true
 	f.closeChan = make(chan error, 1)
 	verifHook("life.open", f, 0, 0)
 	return nil
 }
 
-func (f *fAdapterTransport) readLoop() {
+func (f *fAdapterTransport) readLoop(closeSignal chan struct{}) {
 	framedTransport := NewTFramedTransport(f.transport)
 	for {
 		frame, err := f.readFrame(framedTransport)
@@ -92,7 +96,7 @@ func (f *fAdapterTransport) readLoop() {
 			verifHook("life.rl.err", f, 0, 0)
 			// First check if the transport was closed.
 			select {
-			case <-f.closeSignal:
+			case <-closeSignal:
 				// Transport was closed.
 				verifHook("life.rl.signalled", f, 0, 0)
 				return
@@ -102,19 +106,19 @@ func (f *fAdapterTransport) readLoop() {
 
 			if err, ok := err.(thrift.TTransportException); ok && err.TypeId() == TRANSPORT_EXCEPTION_END_OF_FILE {
 				// EOF indicates remote peer disconnected.
-				f.Close()
+				f.closeGeneration(closeSignal, nil)
 				return
 			}
 
 			logger().Error("frugal: error reading protocol frame, closing transport: ", err)
-			f.close(err)
+			f.closeGeneration(closeSignal, err)
 			return
 		}
 
 		if err := f.registry.Execute(frame); err != nil {
 			// An error here indicates an unrecoverable error, teardown transport.
 			logger().Error("frugal: closing transport due to unrecoverable error processing frame: ", err)
-			f.close(err)
+			f.closeGeneration(closeSignal, err)
 			return
 		}
 	}
@@ -146,11 +150,18 @@ func (f *fAdapterTransport) Close() error {
 }
 
 func (f *fAdapterTransport) close(cause error) error {
+	return f.closeGeneration(nil, cause)
+}
+
+// closeGeneration closes the transport. A read loop passes the close signal of
+// the generation it belongs to, so that it can never close a transport which
+// has been closed and reopened in the meantime; nil means the current one.
+func (f *fAdapterTransport) closeGeneration(generation chan struct{}, cause error) error {
 	f.mu.Lock()
 	defer f.mu.Unlock()
 	verifHook("life.close.enter", f, 0, 0)
 
-	if !f.isOpen {
+	if !f.isOpen || (generation != nil && generation != f.closeSignal) {
 		verifHook("life.close.notopen", f, 0, 0)
 		return thrift.NewTTransportException(TRANSPORT_EXCEPTION_NOT_OPEN, "Transport not open")
 	}
